@@ -40,7 +40,7 @@ CLAIM = {
             "namespace URI (xsi:nil and NsReader's binding checks depend on the reader's look-ahead), elements named like serde keys "
             "(`@…`, `$…`), DOCTYPE inside the root (quick-xml panics there: reported), an element inside a code element (`Cd`, "
             "`CdtDbtInd`, `SubFmlyCd`), from_scientific products beyond 96 bits with a scale left, DtTm years beyond ±262000. "
-            "Single-currency statements only in the generated streams.",
+            "The statement's own currency is single; details may carry a foreign original amount with or without CcyXchg.",
     "design_ref": "DESIGN.md section 6, C18",
 }
 
@@ -105,6 +105,9 @@ def charge_sum(chs):
     return s
 
 
+FOREIGN_SHARE = [0.2]      # share of the details without charges whose original amount is in another currency
+
+
 def make_detail(rng, ccy, cd, cents, entry_charges, allow_charges):
     d = {"ref": "REF/%d" % rng.randint(1, 99999) if rng.random() < 0.8 else None,
          "amount": D.cents(cents), "cd": cd, "txamt": None, "charges": [], "info": {}}
@@ -126,6 +129,27 @@ def make_detail(rng, ccy, cd, cents, entry_charges, allow_charges):
         d["txamt"] = {"amount": _dec(t), "same": False}
     elif rng.random() < 0.5:
         d["txamt"] = {"amount": D(False, d["amount"].mant * 10, d["amount"].scale + 1) if rng.random() < 0.3 else d["amount"], "same": True}
+    if not allch and rng.random() < FOREIGN_SHARE[0]:
+        # the original amount of the payment is in ANOTHER currency (a card payment abroad, an incoming foreign transfer): the
+        # statement stays single-currency, the detail carries <TxAmt Ccy=foreign> and (usually) the <CcyXchg> that links the two.
+        # Consistent: booked = foreign x rate when the rate quotes the foreign currency in the account's (SrcCcy = account currency),
+        # foreign = booked x rate when it is quoted the other way round.  Rates are of the form 2^a 5^b so that every figure is exact;
+        # rate 1 (a pegged currency, a EUR/EUR-like pair of tickers) makes the two NUMBERS equal while the currencies differ.
+        fccy = rng.choice([c for c in ("EUR", "CHF", "USD", "JPY", "GBP") if c != ccy])
+        rate = Fraction(rng.choice(["1", "1", "0.5", "2", "1.25", "0.8", "0.25", "4", "1.6", "0.625", "1.024"]))
+        how = rng.choice(["src-account", "src-account", "src-foreign", "none"])
+        booked = d["amount"].frac()
+        foreign = booked / rate if how == "src-account" else booked * rate
+        if how == "none":
+            foreign = booked * rng.choice([Fraction(1), Fraction(11, 10), Fraction(9, 10), Fraction(150)])
+        fa = _dec(foreign)
+        if rng.random() < 0.3:
+            fa = D(False, fa.mant * 10, fa.scale + 1)
+        rd = _dec(rate)
+        if rng.random() < 0.3:
+            rd = D(False, rd.mant * 1000, rd.scale + 3)
+        d["txamt"] = {"amount": fa, "same": False, "ccy": fccy,
+                      "xchg": None if how == "none" else ((ccy, fccy) if how == "src-account" else (fccy, ccy)) + (rd,)}
     info = {}
     if rng.random() < 0.6:
         info["creditor_name" if cd == "D" else "debtor_name"] = rng.choice(NAMES)
@@ -296,8 +320,12 @@ def render_xml(rng, stmts, shuffle=False):
                                          "<EndToEndId>NOTPROVIDED</EndToEndId>"]) + "</Refs>",
                           '<Amt Ccy="%s">%s</Amt>' % (ccy, amt_text(rng, d["amount"])), cd_el(d["cd"])]
                     if d["txamt"] is not None:
-                        tp.append("<AmtDtls>" + sh(['<InstdAmt><Amt Ccy="%s">%s</Amt></InstdAmt>' % (ccy, d["txamt"]["amount"].text()),
-                                                    '<TxAmt><Amt Ccy="%s">%s</Amt></TxAmt>' % (ccy, d["txamt"]["amount"].text())]) + "</AmtDtls>")
+                        tccy = d["txamt"].get("ccy", ccy)
+                        xc = d["txamt"].get("xchg")
+                        xel = "" if xc is None else ("<CcyXchg>" + sh(["<SrcCcy>%s</SrcCcy>" % xc[0], "<TrgtCcy>%s</TrgtCcy>" % xc[1],
+                                                                      "<XchgRate>%s</XchgRate>" % xc[2].text()]) + "</CcyXchg>")
+                        tp.append("<AmtDtls>" + sh(['<InstdAmt><Amt Ccy="%s">%s</Amt></InstdAmt>' % (tccy, d["txamt"]["amount"].text()),
+                                                    "<TxAmt>" + sh(['<Amt Ccy="%s">%s</Amt>' % (tccy, d["txamt"]["amount"].text()), xel]) + "</TxAmt>"]) + "</AmtDtls>")
                     tp.append(render_charges(rng, d["charges"], ccy, sh))
                     inf = d["info"]
                     rp = []
@@ -349,7 +377,12 @@ def stmts_sx(stmts):
         for e in st["entries"]:
             dtls = []
             for d in e["details"]:
-                ta = "()" if d["txamt"] is None else "((%s ()))" % amt_sx(d["txamt"]["amount"], ccy)
+                if d["txamt"] is None:
+                    ta = "()"
+                else:
+                    xc = d["txamt"].get("xchg")
+                    ta = "((%s %s))" % (amt_sx(d["txamt"]["amount"], d["txamt"].get("ccy", ccy)),
+                                        "()" if xc is None else "((%s %s %s))" % (enc(xc[0]), enc(xc[1]), xc[2].sx3()))
                 info = "(info%s)" % "".join(" (%s %s)" % (k, enc(v)) for k, v in d["info"].items())
                 dtls.append("(dtl %s %s %s %s %s %s)" % (sx(opt(d["ref"], enc)), amt_sx(d["amount"], ccy), d["cd"], ta,
                                                         chgs_sx(d["charges"], ccy), info))
@@ -945,7 +978,8 @@ def expected_shapes(stmts, order):
                 v = src["amount"].frac()
                 out.append({"kind": "detail" if d is not None else "entry", "date": date, "eff": eff,
                             "amount": v if src["cd"] == "C" else -v, "neg": src["cd"] == "D", "balance": None,
-                            "code": d["ref"] if d is not None else None, "nch": len([c for c in e["charges"] + (d["charges"] if d else []) if c["amount"].mant != 0])})
+                            "code": d["ref"] if d is not None else None, "nch": len([c for c in e["charges"] + (d["charges"] if d else []) if c["amount"].mant != 0]),
+                            "foreign": d["txamt"] if d is not None and d["txamt"] is not None and "ccy" in d["txamt"] else None})
         if st["closing"] is not None and out:
             out[-1]["balance"] = Fraction(st["closing"], 100)
         _ = first_of_stmt
@@ -984,9 +1018,46 @@ def oracle(stmts, order, ist, txns, proc, closing_cents, ccy):
                 msgs.append("%s: code %s, reference is %s" % (where, t["code"], x["code"]))
             if len(posts) != 2 + x["nch"]:
                 msgs.append("%s: %d postings for %d non-zero charges" % (where, len(posts), x["nch"]))
-        # conservation inside the transaction
-        if sum(p["amount"]["value"] for p in posts) != 0:
-            msgs.append("%s: postings do not sum to zero" % where)
+        # conservation inside the transaction: every posting valued at its cost (`@ rate`), totals per commodity
+        res = {}
+        for p in posts:
+            a = p["amount"]
+            if p["cost"] is not None and p["cost"][0] == "rate":
+                c, v = p["cost"][1]["commodity"], a["value"] * p["cost"][1]["value"]
+            elif p["cost"] is not None:
+                c, v = p["cost"][1]["commodity"], abs(p["cost"][1]["value"]) * (1 if a["value"] >= 0 else -1)
+            else:
+                c, v = a["commodity"], a["value"]
+            res[c] = res.get(c, Fraction(0)) + v
+        nz = sorted(v for v in res.values() if v != 0)
+        fg = x.get("foreign")
+        if fg is None:
+            if nz:
+                msgs.append("%s: postings do not sum to zero" % where)
+        else:
+            # a detail whose original amount is in another currency: the counter posting shows that amount, sign opposite to the
+            # account posting, and the statement's rate links the two (on the posting whose commodity is the rate's TrgtCcy)
+            other = posts[-1] if not x["neg"] else posts[0]
+            want = fg["amount"].frac() * (-1 if x["amount"] > 0 else 1)
+            if other["amount"]["commodity"] != fg["ccy"] or other["amount"]["value"] != want:
+                msgs.append("%s: counter posting %s %s, the statement's transaction amount is %s %s" %
+                            (where, other["amount"]["value"], other["amount"]["commodity"], want, fg["ccy"]))
+            xc = fg["xchg"]
+            if xc is None:
+                if src["cost"] is not None or other["cost"] is not None:
+                    msgs.append("%s: a rate is printed, the statement has none" % where)
+                if not (len(nz) == 2 and nz[0] < 0 < nz[1]):
+                    msgs.append("%s: not an exchange of two amounts of opposite sign" % where)
+            else:
+                carrier, bare = (other, src) if xc[1] == fg["ccy"] else (src, other)
+                cst = carrier["cost"]
+                if cst is None or cst[0] != "rate" or cst[1]["value"] != xc[2].frac() or cst[1]["commodity"] != xc[0]:
+                    msgs.append("%s: the %s posting does not carry the statement's rate @ %s %s (it has %s)" %
+                                (where, xc[1], xc[2].text(), xc[0], cst))
+                if bare["cost"] is not None:
+                    msgs.append("%s: the %s posting carries a rate the statement does not give" % (where, xc[0]))
+                if nz:
+                    msgs.append("%s: postings valued at the statement's rate do not sum to zero" % where)
     if msgs:
         return msgs
     if proc[0] != "ok":
@@ -1179,7 +1250,8 @@ def run(chk):
         "the model declines (decoded=unsupported) xsi:nil / reserved namespace bindings / serde-key element names / DOCTYPE inside the "
         "root / elements inside code elements / from_scientific rescaling: only hand-written boundary documents are declined, counted "
         "under xml-decode:model-declines",
-        "single-currency statements: currency exchange details are modelled (and covered by boundary documents) but not generated",
+        "the statement's own currency is single; a fifth of the charge-free details carry their original amount in another "
+        "currency (TxAmt Ccy=foreign with CcyXchg in either quoting direction, or without CcyXchg), rate 1 included",
     ]
     if not standard_prologue(chk, THEOREMS):
         return
@@ -1284,6 +1356,11 @@ def run(chk):
         for st in stmts:
             for e in st["entries"]:
                 chk.count("entry:details=%d" % len(e["details"]))
+                for d in e["details"]:
+                    if d["txamt"] is not None and "ccy" in d["txamt"]:
+                        xc = d["txamt"]["xchg"]
+                        chk.count("detail:foreign:" + ("no-rate" if xc is None else ("rate-in-account-ccy" if xc[0] == ccy else "rate-in-foreign-ccy")) +
+                                  (":same-number" if d["txamt"]["amount"].frac() == d["amount"].frac() else ""))
                 chk.count("entry:value-date=" + ("absent" if e["value"] is None else "same" if e["value"] == e["booking"] else "differs"))
                 for ch in e["charges"] + [c for d in e["details"] for c in d["charges"]]:
                     chk.count("charge:" + ("zero" if ch["amount"].mant == 0 else "included" if ch["included"] else "not-included"))
